@@ -22,11 +22,6 @@ Theorem sanitise_sound : forall f dest name p, san_ok f = true ->
 Proof. exact sanitise_sound_lemma. Qed.
 Print Assumptions sanitise_sound.
 
-Theorem sanitise_sound_generated : forall dest name p,
-  sanitise generated (clean dest) name = Some p -> within (clean dest) p.
-Proof. intros dest name p. apply sanitise_sound_lemma. vm_compute. reflexivity. Qed.
-Print Assumptions sanitise_sound_generated.
-
 (* Second sentence of the property: an entry whose joined path does not stay within the destination is refused with
    the 'suspected malicious intent' kind (None). *)
 Theorem sanitise_rejects_escape : forall f dest name, san_ok f = true ->
@@ -40,11 +35,6 @@ Theorem sanitise_rejects_raw_escape : forall f dest name, san_ok f = true ->
   ~ within (clean dest) (clean dest ++ slash :: name) -> sanitise f (clean dest) name = None.
 Proof. exact sanitise_rejects_raw_escape_lemma. Qed.
 Print Assumptions sanitise_rejects_raw_escape.
-
-Theorem sanitise_rejects_raw_escape_generated : forall dest name,
-  ~ within (clean dest) (clean dest ++ slash :: name) -> sanitise generated (clean dest) name = None.
-Proof. intros dest name. apply sanitise_rejects_raw_escape_lemma. vm_compute. reflexivity. Qed.
-Print Assumptions sanitise_rejects_raw_escape_generated.
 
 (* Destination of a nested archive (recursive mode): derived from an accepted entry path other than the destination
    itself, it stays within the destination — when it goes through the sanitiser, or, for a bare Join(Dir p, Stem p), when
@@ -71,12 +61,6 @@ Theorem unzip_confined : forall f transcode recursive membackend dest a s0 s fl 
 Proof. intros f transcode recursive membackend dest a s0 s fl r. apply unzip_confined_lemma. Qed.
 Print Assumptions unzip_confined.
 
-Theorem unzip_confined_generated : forall transcode recursive membackend dest a s0 s fl r,
-  unzip transcode generated recursive membackend dest a s0 = (s, fl, r) ->
-  (exists new, ops s = new ++ ops s0 /\ Forall (allowed (clean dest)) new) /\ Forall (within (clean dest)) fl.
-Proof. intros transcode recursive membackend dest a s0 s fl r. apply unzip_confined_lemma. vm_compute. reflexivity. Qed.
-Print Assumptions unzip_confined_generated.
-
 (* Lexical containment of a relative path is preserved when both are anchored at any absolute working directory
    (component-wise resolution on a tree without symbolic links: ".." pops, at the root it stays) — so [within] on the
    relative names the library passes to the back end means containment of the physical locations.
@@ -98,6 +82,24 @@ Print Assumptions within_physical.
 Theorem clean_preserves_resolution : forall s, rooted (clean s) = rooted s /\ resolve (clean s) = resolve s.
 Proof. exact resolve_clean. Qed.
 Print Assumptions clean_preserves_resolution.
+
+(* ---- the same theorems for the record regenerated from the source on this run (conditions discharged by computation) ---- *)
+
+Theorem sanitise_sound_generated : forall dest name p,
+  sanitise generated (clean dest) name = Some p -> within (clean dest) p.
+Proof. intros dest name p. apply sanitise_sound_lemma. vm_compute. reflexivity. Qed.
+Print Assumptions sanitise_sound_generated.
+
+Theorem sanitise_rejects_raw_escape_generated : forall dest name,
+  ~ within (clean dest) (clean dest ++ slash :: name) -> sanitise generated (clean dest) name = None.
+Proof. intros dest name. apply sanitise_rejects_raw_escape_lemma. vm_compute. reflexivity. Qed.
+Print Assumptions sanitise_rejects_raw_escape_generated.
+
+Theorem unzip_confined_generated : forall transcode recursive membackend dest a s0 s fl r,
+  unzip transcode generated recursive membackend dest a s0 = (s, fl, r) ->
+  (exists new, ops s = new ++ ops s0 /\ Forall (allowed (clean dest)) new) /\ Forall (within (clean dest)) fl.
+Proof. intros transcode recursive membackend dest a s0 s fl r. apply unzip_confined_lemma. vm_compute. reflexivity. Qed.
+Print Assumptions unzip_confined_generated.
 
 (* ---- non-vacuity and documented corner cases (evaluated, not property theorems) ---- *)
 
